@@ -83,6 +83,38 @@ def _gen_core(rng, tier):
         yield Case("compress", [1, rows_str(rows)], True, "compress")
 
 
+    # large inputs: growth of the internal tables (more than 100 / 1000 distinct sequences or patterns), duplicates that
+    # arrive long after their first occurrence
+    for _ in range(6 if tier == "quick" else 60):
+        nd = rng.choice([90, 101, 130, 150, 260, 520, 1030])
+        L = rng.choice([4, 5, 6])
+        distinct = set()
+        while len(distinct) < nd:
+            distinct.add("".join(rng.choice("ACGT-N") for _ in range(L)))
+        distinct = sorted(distinct)
+        rng.shuffle(distinct)
+        rows = [("s%04d" % i, q) for i, q in enumerate(distinct)]
+        for k in range(rng.randint(3, 12)):
+            rows.append(("d%03d" % k, rng.choice(distinct[:nd] if rng.random() < 0.5 else distinct[:100])))
+        if rng.random() < 0.5:
+            tail = rows[nd:]
+            rng.shuffle(tail)
+            rows = rows[:nd] + tail
+        yield Case("dedup", [1, rows_str(rows), rng.randint(0, 1)], True, "dedup-large")
+        # compress: many distinct patterns, repeated ones far apart
+        n = rng.choice([2, 3])
+        npat = rng.choice([60, 130, 300])
+        pats = set()
+        while len(pats) < min(npat, 4 ** n * 2):
+            pats.add("".join(rng.choice("ACGT-NRY") for _ in range(n)))
+        pats = sorted(pats)
+        cols = list(pats) + [rng.choice(pats) for _ in range(rng.randint(5, 40))]
+        if rng.random() < 0.5:
+            rng.shuffle(cols)
+        rows = [("s%d" % i, "".join(c[i] for c in cols)) for i in range(n)]
+        yield Case("compress", [1, rows_str(rows)], True, "compress-large")
+
+
 def shrink(c):
     a = list(c.args)
     rows = [] if a[1] == "_" else [tuple(r.split(":", 1)) for r in a[1].split(",")]
